@@ -159,6 +159,13 @@ def run_case(case):
                     continue
                 if "error" in nw:
                     continue
+                # a type that appears for a parameter the description gives none is an invention either way (finding
+                # KF-D02); whether wrapping changes that invention says nothing about the description
+                untyped = {p["name"] for p in cir["params"] if "typ" not in p}
+                for side in (nw["ir"], wr["ir"]):
+                    for p in side["params"]:
+                        if p["name"] in untyped:
+                            p.pop("typ", None)
                 for dd in compare_ir(nw["ir"], domain.to_ir(wr["ir"]), POLICY):
                     add("wrap-changes:%s:%s" % (kind, dd.aspect), dd.where, dd.detail, dd.ptags)
     finally:
